@@ -87,11 +87,19 @@ deriving Repr, DecidableEq
 
 /-! ## rules -/
 
+/-- an exception `!VAR:key` (rule.go ruleVariableException): the key text as written, and the
+    expression as compiled when the key was written `/re/` -/
+structure Exc where
+  key : Bytes              -- "" = the whole variable (when `rx` is none)
+  rx : Option Bytes := none
+deriving Repr, DecidableEq
+
 structure Target where
   var : Var
-  key : Bytes          -- "" = whole collection
+  key : Bytes          -- KeyStr as compiled: "" = whole collection; for a regex key the text with its slashes
+  rx : Option Bytes    -- KeyRx: the expression as compiled (lower-cased unless ARGS family)
   count : Bool
-  exc : List Bytes     -- negated keys `!VAR:key` ("" = the whole variable)
+  exc : List Exc       -- `!VAR:key` / `!VAR:/re/`
 deriving Repr, DecidableEq
 
 inductive MTok
@@ -114,7 +122,7 @@ inductive NAct
   | ctlRemoveById (id : Nat)
   | ctlRemoveByRange (lo hi : Nat)
   | ctlRemoveByTag (tag : Bytes)
-  | ctlRemoveTargetById (lo hi : Nat) (v : Var) (key : Bytes)
+  | ctlRemoveTargetById (lo hi : Nat) (v : Var) (e : Exc)
   | ctlAuditEngine (m : AuditEngine)
   | ctlAuditLogParts (modification : Bytes)
   | nop                                  -- log, msg, tag, capture, … : no state effect modelled
@@ -186,7 +194,7 @@ structure Tx where
   lastPhase : Nat := 0
   rmIds : List Nat := []
   rmRanges : List (Nat × Nat) := []
-  rmTargets : List (Nat × Var × Bytes) := []
+  rmTargets : List (Nat × Var × Exc) := []
   matched : List Matched := []
   highestSeverity : Nat := 255
   audit : Bool := false
@@ -206,6 +214,7 @@ def freshTxc : CMap :=
 structure Env where
   op : String → Bytes → Bytes → Bool          -- name, expanded argument, value
   tf : String → Bytes → (Bytes × Bool × Bool) -- name, value ↦ (out, changed, err)
+  rx : Bytes → Bytes → Bool := fun _ _ => false   -- regexp.MustCompile(expression).MatchString(key)
 
 /-! ## macro expansion (macro.go:50 Expand / expandToken) -/
 
@@ -252,6 +261,25 @@ def findNames (m : CMap) (v : Var) (key : Bytes) : List MD :=
   let kvs := if key.isEmpty then m.all else m.lookup (lower key)
   kvs.map fun e => ⟨v, e.key, e.key⟩
 
+/-- Map.FindRegex (map.go:62): the entries of every bucket whose *folded* key the expression
+    matches -/
+def findMapRx (m : CMap) (v : Var) (p : Bytes → Bool) : List MD :=
+  ((m.buckets.filter fun b => p b.1).flatMap (·.2)).map fun e => ⟨v, e.key, e.value⟩
+
+/-- NamedCollectionNames.FindRegex (named.go:103) -/
+def findNamesRx (m : CMap) (v : Var) (p : Bytes → Bool) : List MD :=
+  ((m.buckets.filter fun b => p b.1).flatMap (·.2)).map fun e => ⟨v, e.key, e.key⟩
+
+/-- selection by a regex key (GetField `case rv.KeyRx != nil`); collections that are not keyed
+    select nothing -/
+def selectRx (tx : Tx) (v : Var) (p : Bytes → Bool) : List MD :=
+  match v with
+  | .args => (findMapRx tx.argsGet .args p) ++ (findMapRx tx.argsPost .args p) ++ (findMapRx tx.argsPath .args p)
+  | .argsNames => (findNamesRx tx.argsGet .argsNames p) ++ (findNamesRx tx.argsPost .argsNames p) ++ (findNamesRx tx.argsPath .argsNames p)
+  | .argsGetNames | .argsPostNames | .reqHeadersNames | .matchedVarsNames => findNamesRx (mapOf tx v) v p
+  | .argsGet | .argsPost | .argsPath | .reqHeaders | .tx | .matchedVars => findMapRx (mapOf tx v) v p
+  | _ => []
+
 /-- the selected entries of a target before exclusions -/
 def select (tx : Tx) (v : Var) (key : Bytes) : List MD :=
   match v with
@@ -275,34 +303,75 @@ def argsFamily : Var → Bool
 /-- compile-time key normalisation (rule.go:562 newRuleVariableParams) -/
 def compiledKey (v : Var) (key : Bytes) : Bytes := if argsFamily v then key else lower key
 
-def excluded (excs : List Bytes) (md : MD) : Bool :=
-  excs.any fun ex => ex.isEmpty || lower ex == lower md.key
+/-- transaction.go:655-665: an exception with an expression is decided by the expression alone
+    (on the lower-cased key); otherwise by the key up to case, "" meaning the whole variable -/
+def excMatches (env : Env) (ex : Exc) (md : MD) : Bool :=
+  match ex.rx with
+  | some p => env.rx p (lower md.key)
+  | none => ex.key.isEmpty || lower ex.key == lower md.key
+
+def excluded (env : Env) (excs : List Exc) (md : MD) : Bool := excs.any fun ex => excMatches env ex md
 
 
 /-- `ecol`: the run-time target exclusions of this rule id, read once per link
     (rule.go:232 `ecol := tx.ruleRemoveTargetByID[rid]`, before the loop over targets) -/
-def ecolOf (tx : Tx) (ruleId : Nat) : List (Var × Bytes) :=
+def ecolOf (tx : Tx) (ruleId : Nat) : List (Var × Exc) :=
   (tx.rmTargets.filter fun r => r.1 == ruleId).map (·.2)
 
-def getField (tx : Tx) (ecol : List (Var × Bytes)) (t : Target) : List MD :=
+/-- GetField's switch: by expression, by key, or everything -/
+def selected (env : Env) (tx : Tx) (t : Target) : List MD :=
+  match t.rx with
+  | some p => selectRx tx t.var (env.rx p)
+  | none => select tx t.var (compiledKey t.var t.key)
+
+def getField (env : Env) (tx : Tx) (ecol : List (Var × Exc)) (t : Target) : List MD :=
   let key := compiledKey t.var t.key
   -- rule.go:245: exclusions of ctl:ruleRemoveTargetById for this variable
   let dyn := (ecol.filter fun r => r.1 == t.var).map (·.2)
-  let ms := (select tx t.var key).filter (fun md => !excluded (t.exc ++ dyn) md)
+  let ms := (selected env tx t).filter (fun md => !excluded env (t.exc ++ dyn) md)
   if t.count then [⟨t.var, key, natToBytes ms.length⟩] else ms
+
+/-- How the expression of a key written `/re/` is compiled.
+    `code`: as AddVariable / AddVariableNegation / parseCtl do it — the text is lower-cased unless the
+    variable is in the ARGS family (rule.go:595, :642; ctl.go:416).
+    `spec`: what selection over a case-folded collection means — the expression as written, matched
+    case-insensitively (string keys `VAR:Foo` are case-insensitive in this build too). The two differ
+    for an ARGS-family expression with an upper-case letter (never matches a folded key) and for
+    \D \S \W \B \xHH in the other collections (lower-casing the text changes them): finding F-C01-2. -/
+inductive RxMode | code | spec deriving Repr, DecidableEq
+
+def compiledRx (mode : RxMode) (v : Var) (key : Bytes) : Option Bytes :=
+  (hasRegex key).map fun p =>
+    match mode with
+    | .code => if argsFamily v then p else lower p
+    | .spec => [0x28, 0x3f, 0x69, 0x29] ++ p          -- "(?i)" ++ p
+
+/-- rule.go:592 AddVariable -/
+def mkTarget (mode : RxMode) (v : Var) (key : Bytes) (count : Bool) : Target := ⟨v, key, compiledRx mode v key, count, []⟩
+
+/-- rule.go:639 AddVariableNegation's exception -/
+def mkExc (mode : RxMode) (v : Var) (key : Bytes) : Exc := ⟨key, compiledRx mode v key⟩
+
+/-- ctl.go:405 parseCtl: the exception a `ctl:ruleRemoveTargetBy…=…;VAR:key` records — a regex key
+    leaves an empty KeyStr, a plain key is lower-cased -/
+def mkCtlExc (mode : RxMode) (v : Var) (key : Bytes) : Exc :=
+  match compiledRx mode v key with
+  | some p => ⟨[], some p⟩
+  | none => ⟨lower key, none⟩
 
 /-- rule.go:629 AddVariableNegation: `!VAR:key` is added to *every* target of that
     variable already present in the rule (not only the one it is written after) -/
-def addNegation (ts : List Target) (v : Var) (key : Bytes) : List Target :=
-  ts.map fun t => if t.var == v then { t with exc := t.exc ++ [key] } else t
+def addNegation (ts : List Target) (v : Var) (e : Exc) : List Target :=
+  ts.map fun t => if t.var == v then { t with exc := t.exc ++ [e] } else t
 
 /-- target list as written: inclusive targets and negations in textual order -/
-inductive TItem | incl (t : Target) | neg (v : Var) (key : Bytes)
+inductive TItem | incl (t : Target) | neg (v : Var) (e : Exc)
 
-def compileTargets (items : List TItem) : List Target :=
-  items.foldl (fun ts it => match it with
-    | .incl t => ts ++ [t]
-    | .neg v k => addNegation ts v k) []
+def compileStep (ts : List Target) : TItem → List Target
+  | .incl t => ts ++ [t]
+  | .neg v e => addNegation ts v e
+
+def compileTargets (items : List TItem) : List Target := items.foldl compileStep []
 
 /-! ## transformations and operator (rule.go:713-752) -/
 
@@ -408,8 +477,8 @@ def runNAct (rules : List Rule) (tx : Tx) : NAct → Tx
   | .ctlRemoveByRange lo hi => { tx with rmRanges := tx.rmRanges ++ [(lo, hi)] }
   | .ctlRemoveByTag tag =>
     { tx with rmIds := tx.rmIds ++ (rules.filter (fun r => r.tags.contains tag)).map (·.id) }
-  | .ctlRemoveTargetById lo hi v key =>
-    { tx with rmTargets := tx.rmTargets ++ ((rules.filter (fun r => lo ≤ r.id && r.id ≤ hi)).map fun r => (r.id, v, key)) }
+  | .ctlRemoveTargetById lo hi v e =>
+    { tx with rmTargets := tx.rmTargets ++ ((rules.filter (fun r => lo ≤ r.id && r.id ≤ hi)).map fun r => (r.id, v, e)) }
   | .ctlAuditEngine m => { tx with auditEngine := m }
   | .ctlAuditLogParts md =>
     match applyParts tx.auditParts md with
@@ -441,11 +510,11 @@ def evalValues (env : Env) (rules : List Rule) (l : Link) (o : Operator) :
     let (tx, m2) := evalValues env rules l o mds tx
     (tx, m1 ++ m2)
 
-def evalTargets (env : Env) (rules : List Rule) (ecol : List (Var × Bytes)) (l : Link) (o : Operator) :
+def evalTargets (env : Env) (rules : List Rule) (ecol : List (Var × Exc)) (l : Link) (o : Operator) :
     List Target → Tx → Tx × List MD
   | [], tx => (tx, [])
   | t :: ts, tx =>
-    let (tx, m1) := evalValues env rules l o (getField tx ecol t) tx
+    let (tx, m1) := evalValues env rules l o (getField env tx ecol t) tx
     let (tx, m2) := evalTargets env rules ecol l o ts tx
     (tx, m1 ++ m2)
 
@@ -630,5 +699,138 @@ def splitLines : Bytes → List Bytes
     else match splitLines tl with
       | [] => [[b]]          -- unterminated last line
       | l :: ls => (b :: l) :: ls
+
+end Coraza.Engine
+
+/-! ## configuration-time exclusions and updates (internal/seclang/directives.go)
+
+    SecRuleRemoveById :418 / ByTag :365 (rulegroup.go:104-150 DeleteBy*),
+    SecRuleUpdateTargetById :1117 / ByTag :1339 (ParseVariables on the stored rule),
+    SecRuleUpdateActionById :1214 (ClearDisruptiveActions + applyParsedActions).
+    A configuration is a list of items evaluated in order: a directive acts on the rules
+    defined before it. `none` = NewWAF fails. -/
+namespace Coraza.Engine
+
+/-- one element of an id list: `10` or `10-20` -/
+inductive IdSel | one (id : Nat) | range (lo hi : Nat)
+deriving Repr, DecidableEq
+
+inductive LogAct | log | nolog | auditlog | noauditlog
+deriving Repr, DecidableEq
+
+/-- the modelled part of an action list given to SecRuleUpdateActionById -/
+structure ActUpd where
+  disr : Option Disr := none        -- the (last) disruptive action of the list
+  status : Option Nat := none
+  sev : Option Nat := none
+  tags : List Bytes := []
+  nacts : List NAct := []
+  logs : List LogAct := []
+  skip : Option Nat := none
+  skipAfter : Option Bytes := none
+deriving Repr, DecidableEq
+
+inductive Dir
+  | removeById (sels : List IdSel)
+  | removeByTag (tag : Bytes)
+  | updateTargetById (sels : List IdSel) (items : List TItem)
+  | updateTargetByTag (tag : Bytes) (items : List TItem)
+  | updateActionById (sels : List IdSel) (u : ActUpd)
+
+inductive Item | rule (r : Rule) | dir (d : Dir)
+
+/-- rulegroup.go:104 DeleteByID: the first rule with that id -/
+def deleteFirst (id : Nat) : List Rule → List Rule
+  | [] => []
+  | r :: rs => if r.id == id then rs else r :: deleteFirst id rs
+
+/-- one element of `SecRuleRemoveById`'s list; an inverted range is a configuration error -/
+def removeSel (rs : List Rule) : IdSel → Option (List Rule)
+  | .one id => some (deleteFirst id rs)
+  | .range lo hi => if lo > hi then none else some (rs.filter fun r => !(lo ≤ r.id && r.id ≤ hi))
+
+def removeSels : List Rule → List IdSel → Option (List Rule)
+  | rs, [] => some rs
+  | rs, s :: ss => match removeSel rs s with
+    | some rs' => removeSels rs' ss
+    | none => none
+
+/-- ParseVariables on a stored rule: the written targets are appended to the starter's list -/
+def addTargets (items : List TItem) (r : Rule) : Rule :=
+  match r.links with
+  | [] => r
+  | l :: ls => { r with links := { l with targets := items.foldl compileStep l.targets } :: ls }
+
+def applyLog (la : LogAct) (p : Bool × Bool) : Bool × Bool :=
+  match la with
+  | .log => (true, true)
+  | .nolog => (false, false)
+  | .auditlog => (p.1, true)
+  | .noauditlog => (p.1, false)
+
+/-- applyParsedActions on a stored rule (after ClearDisruptiveActions when the list has a
+    disruptive action): metadata overwrite, repeatable actions are appended -/
+def applyActUpd (u : ActUpd) (r : Rule) : Rule :=
+  let la := u.logs.foldl (fun p a => applyLog a p) (r.log, r.audit)
+  let links := match r.links with
+    | [] => []
+    | l :: ls => { l with nacts := l.nacts ++ u.nacts } :: ls
+  { r with disr := u.disr.getD r.disr, status := u.status.getD r.status,
+           severity := match u.sev with | some s => some s | none => r.severity,
+           tags := r.tags ++ u.tags, links := links, log := la.1, audit := la.2,
+           skip := u.skip.getD r.skip, skipAfter := u.skipAfter.getD r.skipAfter }
+
+/-- update the first rule with that id (FindByID) -/
+def updFirst (f : Rule → Rule) (id : Nat) : List Rule → List Rule
+  | [] => []
+  | r :: rs => if r.id == id then f r :: rs else r :: updFirst f id rs
+
+structure UpdAcc where
+  rules : List Rule
+  updated : Nat := 0
+  notFound : Bool := false
+
+/-- one element of the id list of SecRuleUpdateTargetById / SecRuleUpdateActionById: a listed id
+    without a rule is skipped and remembered; an inverted range is an error -/
+def updSel (f : Rule → Rule) (acc : UpdAcc) : IdSel → Option UpdAcc
+  | .one id =>
+    if acc.rules.any (·.id == id) then some { acc with rules := updFirst f id acc.rules, updated := acc.updated + 1 }
+    else some { acc with notFound := true }
+  | .range lo hi =>
+    if lo == hi then
+      (if acc.rules.any (·.id == lo) then some { acc with rules := updFirst f lo acc.rules, updated := acc.updated + 1 }
+       else some { acc with notFound := true })
+    else if lo > hi then none
+    else some { acc with rules := acc.rules.map (fun r => if lo ≤ r.id && r.id ≤ hi then f r else r),
+                         updated := acc.updated + (acc.rules.filter fun r => lo ≤ r.id && r.id ≤ hi).length }
+
+def updSels (f : Rule → Rule) : UpdAcc → List IdSel → Option UpdAcc
+  | acc, [] => some acc
+  | acc, s :: ss => match updSel f acc s with
+    | some acc' => updSels f acc' ss
+    | none => none
+
+/-- the whole id list: "rule not found" only when nothing was updated -/
+def updateByIds (f : Rule → Rule) (rs : List Rule) (sels : List IdSel) : Option (List Rule) :=
+  match updSels f ⟨rs, 0, false⟩ sels with
+  | none => none
+  | some acc => if acc.updated == 0 && acc.notFound then none else some acc.rules
+
+def applyDir (rs : List Rule) : Dir → Option (List Rule)
+  | .removeById sels => removeSels rs sels
+  | .removeByTag tag => some (rs.filter fun r => !r.tags.contains tag)
+  | .updateTargetById sels items => updateByIds (addTargets items) rs sels
+  | .updateTargetByTag tag items => some (rs.map fun r => if r.tags.contains tag then addTargets items r else r)
+  | .updateActionById sels u => updateByIds (applyActUpd u) rs sels
+
+def buildStep (acc : Option (List Rule)) (it : Item) : Option (List Rule) :=
+  match acc with
+  | none => none
+  | some rs => match it with
+    | .rule r => some (rs ++ [r])
+    | .dir d => applyDir rs d
+
+/-- the rule list NewWAF ends up with -/
+def buildRules (items : List Item) : Option (List Rule) := items.foldl buildStep (some [])
 
 end Coraza.Engine
